@@ -119,4 +119,8 @@ theorem classes_scanned_pos : 30 ≤ Gen.C08.classes_scanned := by decide
 right size", … shortcuts skip the modelled program of the stage) -/
 theorem data_early_returns_eq : Gen.C08.data_early_returns = dataEarlyReturns := by decide
 
+/-- the seed derivations (mask, body-coil image, random crop, SSL split) call nothing but `tuple`, `map`, `ord`, `str`, …:
+no `hash` (salted per interpreter), `id`, `random` — the seed of a file name is the same in every process -/
+theorem seed_derivation_pure : Gen.C08.seed_disallowed_calls = [] := by decide
+
 end DirectVerif.Bridge.C08
